@@ -322,6 +322,7 @@ class Inliner:
         body = fn.body
         if body and isinstance(body[0], ast.Expr) and isinstance(body[0].value, ast.Constant) and isinstance(body[0].value.value, str):
             body = body[1:]
+        body = [s_ for s_ in body if not isinstance(s_, ast.Pass)]
         if fn.args.vararg or fn.args.kwarg or _has(fn, (ast.Yield, ast.YieldFrom, ast.Await, ast.Lambda, ast.NamedExpr)):
             return None
         if len(body) == 1 and isinstance(body[0], ast.Return) and body[0].value is not None:
